@@ -141,6 +141,42 @@ Theorem C09_lz4_sizes : forall cd body,
   end.
 Proof. exact lz4_sizes. Qed.
 
+(* The 2^31 boundaries ([long string] statement texts, the [bytes] token, value cells): with one
+   component x of |x| = n bytes and everything else minimal ([big_request]) the code returns exactly
+   [big_outcome]: a frame of 9 + body-size bytes below 2^31, the specific refusal from 2^31 on (the
+   tie's `G` cases run the real code at 2^31 and 2^31+1 on untouched zero pages). *)
+Theorem C09_int_boundary : forall cd k x,
+  match big_outcome k (blen x) with
+  | Ok b => exists f, encode_request cd None false (big_request k x) = Ok f /\ blen f = 9 + b
+  | Err e => encode_request cd None false (big_request k x) = Err e
+  end.
+Proof. exact int_boundary. Qed.
+
+(* "Bound values in order": binding a typed row (unit, tuple / slice / Vec, map by column name;
+   &T and Box<T> are transparent) to a statement's bind markers either fails or yields exactly one
+   cell per marker, in marker order, each being the serialisation (by the value codec [vser], for
+   that marker's type) of the value the caller supplied for it -- positionally, or by the marker's
+   name for maps -- and nothing the caller supplied is left over; at most 65535 values. *)
+Theorem C09_values_in_order : forall V T vser cols r cells,
+  bind_row V T vser cols r = Ok cells ->
+  row_binds V T vser cols r cells /\ row_complete V T cols r /\ N.of_nat (List.length cells) < 65536.
+Proof. exact bind_row_ok. Qed.
+(* ... and conversely nothing else is refused *)
+Theorem C09_bind_row_total : forall V T vser cols r,
+  row_good V T vser cols r -> exists cells, bind_row V T vser cols r = Ok cells.
+Proof. exact bind_row_total. Qed.
+Theorem C09_row_count_mismatch : forall V T vser cols vs, List.length vs <> List.length cols ->
+  bind_row V T vser cols (RSeq vs)
+  = Err (WrongColumnCount (N.of_nat (List.length vs)) (N.of_nat (List.length cols))).
+Proof. exact bind_row_count_mismatch. Qed.
+(* the value list the protocol parser reads out of the EXECUTE frame is that binding *)
+Theorem C09_values_in_frame : forall V T vser cols r cells cd alg tr id m p f,
+  bind_row V T vser cols r = Ok cells -> qp_values p = cells -> qparams_wf p ->
+  encode_request cd None tr (Execute id m p) = Ok f ->
+  exists h p', parse_frame cd alg (is_some m) f = Ok (h, Execute id m p') /\
+               row_binds V T vser cols r (qp_values p') /\ row_complete V T cols r.
+Proof. exact values_in_frame. Qed.
+
 (* ---- non-vacuity: concrete requests meeting the hypotheses, with non-trivial outputs ---- *)
 Definition ex_codec : codec :=
   mkCodec (fun b => b) (fun b _ => Some b) (fun b => Some b) (fun b => Some b).
@@ -266,7 +302,29 @@ Example C09_anchor_predicates :
   oversize (Startup [(repeat 107 (N.to_nat 65535), [])]) = false /\
   oversize (Register (repeat EvStatus (N.to_nat 65536))) = true /\
   size_outcome 4294967295 = Ok 4294967295 /\ size_outcome 4294967296 = Err 4294967296 /\
+  big_outcome BigPrepare 2147483647 = Ok 2147483651 /\ big_outcome BigPrepare 2147483648 = Err ErrPrepareString /\
+  big_outcome BigCell 2147483647 = Ok 2147483660 /\ big_outcome BigCell 2147483648 = Err ErrCellOverflow /\
+  big_outcome BigBatch 2147483648 = Err (ErrBatchStatement 0 StmtString) /\ big_outcome BigBatch 3 = Ok 16 /\
+  big_outcome BigQuery 2147483648 = Err ErrQueryString /\ big_outcome BigAuth 2147483648 = Err ErrAuthResponse /\
   uses_mid ex_execute = true /\ uses_mid ex_query = false.
+Proof. repeat split; vm_compute; reflexivity. Qed.
+
+Definition ex_cols : list (bytes * mty) := [([97], TInt); ([98], TText); ([97], TInt)].   (* a, b, a *)
+Example C09_anchor_rows :
+  (* by name, map order irrelevant, a repeated marker name gets the same value twice *)
+  bind_row mval mty mini_ser ex_cols (RMap [([98], MText [120]); ([97], MInt 7)])
+  = Ok [CVal [0; 0; 0; 7]; CVal [120]; CVal [0; 0; 0; 7]] /\
+  bind_row mval mty mini_ser ex_cols (RSeq [MInt (-1); MNull; MUnset])
+  = Ok [CVal [255; 255; 255; 255]; CNull; CUnset] /\
+  (* refusals: count, missing name, surplus names (lexicographically first reported), wrong type, unit *)
+  bind_row mval mty mini_ser ex_cols (RSeq [MInt 1; MText []]) = Err (WrongColumnCount 2 3) /\
+  bind_row mval mty mini_ser ex_cols (RMap [([97], MInt 7)]) = Err (ValueMissingForColumn [98]) /\
+  bind_row mval mty mini_ser ex_cols (RMap [([122], MNull); ([98], MNull); ([97], MNull); ([99; 100], MNull); ([99], MNull)])
+  = Err (NoColumnWithName [99]) /\
+  bind_row mval mty mini_ser ex_cols (RSeq [MInt 1; MInt 2; MInt 3]) = Err (ColumnSerializationFailed [98]) /\
+  bind_row mval mty mini_ser ex_cols RUnit = Err (WrongColumnCount 0 3) /\
+  bind_row mval mty mini_ser [] RUnit = Ok [] /\
+  bytes_ltb [99] [99; 100] = true /\ bytes_ltb [99; 100] [99] = false /\ bytes_ltb [98; 255] [99] = true.
 Proof. repeat split; vm_compute; reflexivity. Qed.
 
 Print Assumptions C09_parse_encode.
@@ -286,3 +344,8 @@ Print Assumptions C09_payload_too_long.
 Print Assumptions C09_uniform_batch.
 Print Assumptions C09_make_sizes.
 Print Assumptions C09_lz4_sizes.
+Print Assumptions C09_int_boundary.
+Print Assumptions C09_values_in_order.
+Print Assumptions C09_bind_row_total.
+Print Assumptions C09_row_count_mismatch.
+Print Assumptions C09_values_in_frame.
